@@ -1278,8 +1278,9 @@ DFANIlablist(const char *filename, uint16 tag, uint16 reflist[], uint8 *labellis
 
                         lp = labellist + k * maxlen; /* get pos to copy to */
 
-                        /* note len on read may be too big, but OK for DFread */
-                        len = Hread(aid, (int32)(maxlen - 1), lp);
+                        /* note len on read may be too big, but OK for DFread;
+                           a length of 0 would mean "to the end of the element" */
+                        len = (maxlen > 1) ? Hread(aid, (int32)(maxlen - 1), lp) : 0;
                         if (len == FAIL) {
                             Hendaccess(aid);
                             HCLOSE_GOTO_ERROR(file_id, DFE_READERROR, FAIL);
